@@ -10,7 +10,7 @@ Exit codes are only 0 and 1.
 import fcntl, hashlib, json, os, re, shutil, subprocess, sys, time
 
 VERIF = os.path.dirname(os.path.dirname(os.path.abspath(__file__)))
-REPO = os.environ.get("VERIF_REPO", "/repo")
+REPO = os.environ.get("VERIF_REPO", os.path.realpath(os.path.join(VERIF, "repo")))
 LEAN = os.path.join(VERIF, "lean")
 BUILD = os.path.join(VERIF, "build")
 HARNESS = os.path.join(VERIF, "harness")
